@@ -49,13 +49,19 @@ ExactUnder(q, t) ==
   \* the generic sampler takes the default root: Lanczos above max_cholesky_size when fast root decompositions are on
   /\ ~(q[1] = "sample" /\ t.max_chol = 0 /\ t.fast_root)
 
+\* homogeneity: the operator actually handed to the library is (1 / sden) * term -- covariances of small magnitude are legal inputs and
+\* every relation above is scale-covariant (factors scale with sqrt, eigenvalues linearly); stopping rules must be relative
+ScaledCls == {"Dense", "AddedDiag", "Toeplitz", "Kron", "Sum"}
 Init ==
-  /\ \E ci \in 1..Len(Cls), bi \in 1..Len(Batches), qi \in 1..Len(Queries), t \in Thresholds :
+  /\ \E ci \in 1..Len(Cls), bi \in 1..Len(Batches), qi \in 1..Len(Queries), t \in Thresholds, sd \in {1, 100000} :
        /\ ((ci + bi + qi + ThrId(t)) % NParts = Part)
-       /\ (Tier = "quick" => ((ci + qi + ThrId(t) + bi) % 3 = 0))
+       /\ (sd # 1 => Cls[ci] \in ScaledCls /\ Queries[qi][3] # "cov" /\ t.max_root = 100)
+       /\ (Tier = "quick" => IF sd = 1 THEN ((ci + qi + ThrId(t) + bi) % 3 = 0)
+                             ELSE (Queries[qi][2] = "pivoted_cholesky" \/ (ci + qi + ThrId(t) + bi) % 5 = 0))
        /\ (Queries[qi][1] = "sample_ciq" => bi = 1 /\ t.max_root = 100)
        /\ desc = [cls |-> Cls[ci], b |-> Batches[bi], query |-> Queries[qi][1], method |-> Queries[qi][2], relation |-> Queries[qi][3],
-                  exact |-> ExactUnder(Queries[qi], t), thr |-> t, id |-> ((ci * 4 + bi) * 32 + qi) * 8 + ThrId(t),
+                  exact |-> ExactUnder(Queries[qi], t), thr |-> t, id |-> (((ci * 4 + bi) * 32 + qi) * 8 + ThrId(t)) * 2 + (IF sd = 1 THEN 0 ELSE 1),
+                  sden |-> sd,
                   dt |-> IF (ci + qi) % 3 = 0 THEN "f32" ELSE "f64", seed |-> ci * 13 + bi * 5]
   /\ term = <<>> /\ dense = <<>> /\ pc = 0
 
